@@ -524,7 +524,7 @@ fn emit(out: &mut impl Write, line: String) {
     writeln!(out, "{}", line).unwrap();
 }
 
-fn gen_seg(out: &mut impl Write, tier: &str, rng: &mut Rng) {
+fn gen_seg(out: &mut impl Write, tier: &str, rng: &mut Rng, part: &str, chunk: usize, nchunks: usize) {
     let thorough = tier == "thorough";
     let fams = families();
     let d = &fams[0];
@@ -572,32 +572,32 @@ fn gen_seg(out: &mut impl Write, tier: &str, rng: &mut Rng) {
         }
     }
     if thorough {
-        // every length-3 sequence over texts + tags (raw small set), no adjacent texts
-        for a in &items {
-            for b in &items {
+        // every length-3 sequence over texts + tags + the small raw set, no adjacent texts
+        for a in &items2 {
+            for b in &items2 {
                 if is_text(a) && is_text(b) {
                     continue;
                 }
-                for c in &items {
+                for c in &items2 {
                     if is_text(b) && is_text(c) {
                         continue;
                     }
                     if is_text(a) && !is_text(b) && is_text(c) {
                         continue; // done above
                     }
-                    // keep the box affordable: at most one raw item per sequence
-                    let nraw = [a, b, c].iter().filter(|x| x.starts_with('R')).count();
-                    if nraw > 1 {
-                        continue;
-                    }
                     seqs.push(format!("{};{};{}", a, b, c));
                 }
             }
         }
     }
-    for s in &seqs {
-        for tlk in TLK {
-            emit(out, run_seg(tlk, &denc, s));
+    if part == "all" || part == "seg" || part == "seg-exh" {
+        for (i, s) in seqs.iter().enumerate() {
+            if i % nchunks != chunk {
+                continue;
+            }
+            for tlk in TLK {
+                emit(out, run_seg(tlk, &denc, s));
+            }
         }
     }
 
@@ -605,7 +605,7 @@ fn gen_seg(out: &mut impl Write, tier: &str, rng: &mut Rng) {
     let mut pool: Vec<String> = items.clone();
     pool.extend(extra.iter().cloned());
     pool.extend(raws_full.iter().cloned());
-    let n_sample = if thorough { 600_000 } else { 60_000 };
+    let n_sample = if !(part == "all" || part == "seg" || part == "seg-sample") { 0 } else if thorough { 300_000 } else { 60_000 };
     let maxlen = 4;
     for _ in 0..n_sample {
         let len = 3 + rng.below((maxlen - 2) as u64) as usize; // 3..=4
@@ -634,6 +634,9 @@ fn gen_seg(out: &mut impl Write, tier: &str, rng: &mut Rng) {
     .iter()
     .map(|s| t_item(s))
     .collect();
+    if !(part == "all" || part == "seg" || part == "seg-fam") {
+        return;
+    }
     for f in fams.iter().skip(1) {
         let fenc = f.enc();
         let mut fseqs: Vec<String> = vec![];
@@ -657,7 +660,7 @@ fn gen_seg(out: &mut impl Write, tier: &str, rng: &mut Rng) {
                 emit(out, run_seg(tlk, &fenc, s));
             }
         }
-        let n = if thorough { 60_000 } else { 3_000 };
+        let n = if thorough { 20_000 } else { 3_000 };
         for _ in 0..n {
             let len = 3 + rng.below(2) as usize;
             let mut parts: Vec<String> = vec![];
@@ -854,8 +857,12 @@ fn main() {
             let tier = args.get(2).map(|s| s.as_str()).unwrap_or("quick").to_string();
             let which = args.get(3).map(|s| s.as_str()).unwrap_or("all").to_string();
             let seed = seed_from_env();
-            if which == "all" || which == "seg" {
-                gen_seg(&mut out, &tier, &mut Rng::new(seed ^ 0x10));
+            let chunk: usize = args.get(4).and_then(|s| s.parse().ok()).unwrap_or(0);
+            let nchunks: usize = args.get(5).and_then(|s| s.parse().ok()).unwrap_or(1);
+            if which == "all" || which.starts_with("seg") {
+                // the three parts use independent generators so that they can run separately
+                let sub = match which.as_str() { "seg-exh" => 0x11, "seg-sample" => 0x12, "seg-fam" => 0x13, _ => 0x10 };
+                gen_seg(&mut out, &tier, &mut Rng::new(seed ^ sub), &which, chunk, nchunks);
             }
             if which == "all" || which == "prog" {
                 gen_prog(&mut out, &tier, &mut Rng::new(seed ^ 0x20));
